@@ -595,3 +595,30 @@ Theorem C19_gob_code_roundtrip : forall encode decode st mv b,
   fn_Gob encode st mv = Ret (Ok b) /\ fn_NewMapGob decode st b = Ret (Ok mv).
 Proof. exact gob_code_roundtrip. Qed.
 Print Assumptions C19_gob_code_roundtrip.
+
+(* ---- the file readers NewMapsFromJsonFile / NewMapsFromXmlFile themselves (files.go), translated from the current sources
+   (os.Stat / os.Open as environment functions, the opened file as the reader of the loop): the case table [files_model] for every
+   reader function and every behaviour of Stat / Open; on a regular file with content X the model's new_maps_from_json_file /
+   new_maps_from_xml_file; and the JSON file round trip on the translated code (GenProofs/PureG35.v) *)
+From Mxj Require GenProofs.PureG35.
+
+Theorem C19_new_maps_from_json_file_code_is_model : forall next callee open stat st name,
+  (forall sc, callee sc = PureG35.conv_next next sc) ->
+  fn_NewMapsFromJsonFile callee open stat st name = PureG35.files_model next open stat name.
+Proof. exact PureG35.new_maps_from_json_file_code_is_model. Qed.
+Print Assumptions C19_new_maps_from_json_file_code_is_model.
+
+Theorem C19_new_maps_from_xml_file_code_is_model : forall next callee open stat st name,
+  (forall sc, callee sc [] = PureG35.conv_next next sc) ->
+  fn_NewMapsFromXmlFile callee open stat st name = PureG35.files_model next open stat name.
+Proof. exact PureG35.new_maps_from_xml_file_code_is_model. Qed.
+Print Assumptions C19_new_maps_from_xml_file_code_is_model.
+
+Theorem C19_json_file_code_roundtrip : forall json_dec eh (dec : entries -> entries) ms callee open stat st name,
+  (forall j, json_dec j <> Err EEOF) ->
+  (forall sc, callee sc = PureG35.conv_next (Reader.new_map_json_reader_raw (Files.new_map_json json_dec)) sc) ->
+  Forall (fun m => scan_safe (VMap m) = true /\ json_dec (marshal eh (VMap m)) = Ok (VMap (dec m))) ms ->
+  stat name = Ok true -> open name = Ok (Reader.file_schedule (concat (map (fun m => marshal eh (VMap m)) ms))) ->
+  fn_NewMapsFromJsonFile callee open stat st name = Ret (map dec ms, None).
+Proof. exact PureG35.json_file_code_roundtrip. Qed.
+Print Assumptions C19_json_file_code_roundtrip.
